@@ -238,9 +238,12 @@ Section Ibc.
     | DUnreg => Err s
     end.
 
-  (* OnAcknowledgementPacket: error ack -> refund; success -> AfterIBCAckSuccess, which deletes
-     the OUTGOING-POOL relation key (prefix 0x07, module name := channel) and so leaves `rel` untouched *)
+  (* OnAcknowledgementPacket: error ack -> refund; success -> AfterIBCAckSuccess -> DeleteIBCTransferRelation *)
   Definition on_ack (pk : packet) (ok : bool) (s : ist) : result ist :=
+    if ok then Ok (with_rel s (del_rel (rel s) (p_chan pk) (p_seq pk))) else refund pk s.
+  (* as it was before the fix "AfterIBCAckSuccess deletes the IBC transfer relation" (finding C19-1, snapshot 6774338):
+     the success path deleted the outgoing-pool relation key (prefix 0x07) and left `rel` untouched *)
+  Definition on_ack_prefix (pk : packet) (ok : bool) (s : ist) : result ist :=
     if ok then Ok s else refund pk s.
   Definition on_timeout (pk : packet) (s : ist) : result ist := refund pk s.
 
